@@ -358,3 +358,195 @@ def regex_cleaner(repo: Repo, fi: FuncInfo, forbidden: Iterable[int], extra: Opt
         return out
 
     return cb
+
+
+# ---------------------------------------------------------------------------
+# refuse-before-mutate
+
+
+def raise_after_mutation(cfg: CFG, mutates: Callable[[Node], bool], raises: Callable[[Node], bool], exempt: Optional[Callable[[Node, FrozenSet], bool]] = None, track: Optional[Callable[[str], bool]] = None) -> List[Tuple[Node, Node]]:
+    """(raising node, a mutating node passed before it) for every node matching
+    ``raises`` that some CFG path reaches after a node matching ``mutates``.
+    A node matching both counts as raising first (its operands are evaluated
+    before the store happens).  Used for APIs that must reject an argument
+    before they touch the state they own, so that a rejected call leaves the
+    effects of earlier, successful calls intact."""
+    def transfer(n: Node, val):
+        if mutates(n):
+            return n.id if val < 0 else val
+        return val
+
+    seen = explore(cfg, -1, transfer, track or (lambda t: False), follow_exc=False)
+    out = []
+    for n in cfg.stmt_nodes(raises):
+        for facts, val in seen.get(n.id, ()):
+            if val >= 0 and not (exempt is not None and exempt(n, facts)):
+                out.append((n, cfg.nodes[val]))
+                break
+    return out
+
+
+# ---------------------------------------------------------------------------
+# validators / sanitisers extracted into helper functions
+
+
+class HelperSummaries:
+    """Summaries of same-class methods / same-module functions used as validators.
+
+    For a helper ``h(p1, .., pn)`` analysed with the *caller's* guard semantics
+    (``make_cleaner(helper_fi)`` builds the ``clean_on_edge`` callback):
+
+    * ``validates(h)``: indexes of the parameters that are clean in every state
+      at the helper's normal exit (the helper raised on every other path) — a
+      call statement ``h(x)`` then proves ``x`` clean in the caller;
+    * ``returns_clean(h)``: every ``return`` value is clean although all
+      parameters are tainted — ``h(x)`` is then a sanitiser expression.
+
+    So a check that was moved into a helper is still decided (and a helper that
+    lost its check is still reported at the sink)."""
+
+    def __init__(self, repo: Repo, fi: FuncInfo, make_cleaner: Callable[[FuncInfo], Optional[Callable]], sanitizers: Iterable[str] = (), expr_hook=None, depth: int = 2, self_classes: Iterable[str] = ()):
+        self.self_classes = tuple(self_classes)
+        self.repo = repo
+        self.fi = fi
+        self.make_cleaner = make_cleaner
+        self.sanitizers = tuple(sanitizers)
+        self.base_hook = expr_hook
+        self.depth = depth
+        self._cache: Dict[str, Tuple[Set[int], bool]] = {}
+        self._pred: Dict[str, Set[int]] = {}
+        self._busy: Set[str] = set()
+
+    def resolve(self, call: ast.Call) -> Optional[Tuple[FuncInfo, List[str]]]:
+        rel = self.fi.file
+        cls = self.fi.qualname.split(".")[0] if self.fi.cls is not None or "." in self.fi.qualname else None
+        h = None
+        if isinstance(call.func, ast.Attribute) and q.dotted(call.func.value) in ("self", "cls"):
+            for c_ in ([cls] if cls else []) + list(self.self_classes):
+                if self.repo.has_func(rel, "%s.%s" % (c_, call.func.attr)):
+                    h = self.repo.func(rel, "%s.%s" % (c_, call.func.attr))
+                    break
+        elif isinstance(call.func, ast.Name) and self.repo.has_func(rel, call.func.id):
+            h = self.repo.func(rel, call.func.id)
+        if h is None or h is self.fi or isinstance(h.node, ast.AsyncFunctionDef):
+            return None
+        a = h.node.args
+        params = [x.arg for x in a.posonlyargs + a.args]
+        if params[:1] in (["self"], ["cls"]):
+            params = params[1:]
+        return h, params
+
+    def summary(self, h: FuncInfo, params: List[str]) -> Tuple[Set[int], bool]:
+        key = h.qualname
+        if key in self._cache:
+            return self._cache[key]
+        if key in self._busy or len(self._busy) >= self.depth:
+            return set(), False
+        self._busy.add(key)
+        try:
+            sub = HelperSummaries(self.repo, h, self.make_cleaner, self.sanitizers, self.base_hook, self.depth, self.self_classes)
+            sub._busy = self._busy
+            sub._cache = self._cache
+            sub._pred = self._pred
+            states = flow_taint(h, params, sanitizers=self.sanitizers, clean_on_edge=sub.cleaner(self.make_cleaner(h)), on_node=sub.on_node, expr_hook=sub.expr_hook)
+            exits = states.get(h.cfg.exit.id, [])
+            val = set()
+            if exits:
+                for i, p in enumerate(params):
+                    if all(p not in t for t in exits):
+                        val.add(i)
+            rets = h.cfg.stmt_nodes(lambda n: n.kind == "stmt" and isinstance(n.ast, ast.Return) and n.ast.value is not None)
+            rc = bool(rets) and all(not expr_tainted(r.ast.value, t, self.sanitizers, (), sub.expr_hook) for r in rets for t in states.get(r.id, []))
+            # predicate helpers: whenever the helper may return something truthy, the parameter is clean
+            cleaner = self.make_cleaner(h)
+            pred = set()
+            if rets:
+                for i, p in enumerate(params):
+                    ok = True
+                    for r in rets:
+                        v = r.ast.value
+                        if isinstance(v, ast.Constant) and not v.value:
+                            continue
+                        for t in states.get(r.id, []):
+                            if p not in t:
+                                continue
+                            fake = _FakeTest(v)
+                            cleaned = set(cleaner(fake, "true", t) or ()) if cleaner is not None else set()
+                            if p not in cleaned:
+                                ok = False
+                    if ok:
+                        pred.add(i)
+            self._pred[key] = pred
+            self._cache[key] = (val, rc)
+            return self._cache[key]
+        finally:
+            self._busy.discard(key)
+
+    def on_node(self, n: Node, st: FrozenSet[str]) -> Optional[FrozenSet[str]]:
+        if n.kind != "stmt" or n.ast is None:
+            return None
+        out = st
+        for c in q.calls(n.ast):
+            r = self.resolve(c)
+            if r is None:
+                continue
+            h, params = r
+            val, _rc = self.summary(h, params)
+            for i in val:
+                arg = c.args[i] if i < len(c.args) and not any(isinstance(a, ast.Starred) for a in c.args[: i + 1]) else q.kwarg(c, params[i])
+                d = _unwrap_value(arg) if arg is not None else None
+                if d:
+                    out = clean_path(out, d)
+        return out if out is not st else None
+
+    def cleaner(self, base: Optional[Callable] = None):
+        """``clean_on_edge`` callback: ``base`` plus 'a predicate helper returned true'."""
+
+        def cb(n: Node, kind: str, tainted: Set[str]):
+            out = list(base(n, kind, tainted) or ()) if base is not None else []
+            if n.kind == "test" and kind == "true" and isinstance(n.ast, ast.Call):
+                r = self.resolve(n.ast)
+                if r is not None:
+                    h, params = r
+                    self.summary(h, params)
+                    for i in self._pred.get(h.qualname, ()):
+                        arg = n.ast.args[i] if i < len(n.ast.args) else q.kwarg(n.ast, params[i])
+                        d = _unwrap_value(arg) if arg is not None else None
+                        if d:
+                            out.append(d)
+            return out
+
+        return cb
+
+    def expr_hook(self, x: ast.AST) -> Optional[bool]:
+        if self.base_hook is not None:
+            r = self.base_hook(x)
+            if r is not None:
+                return r
+        if isinstance(x, ast.Call):
+            r = self.resolve(x)
+            if r is not None:
+                h, params = r
+                _val, rc = self.summary(h, params)
+                if rc:
+                    return False
+        return None
+
+
+_fake_ids = [0]
+
+
+class _FakeTest:
+    """A stand-in for a CFG test node: 'the value returned by the helper is truthy'."""
+
+    kind = "test"
+
+    def __init__(self, expr: ast.AST):
+        _fake_ids[0] -= 1
+        self.id = _fake_ids[0]
+        self.ast = expr
+
+
+def guards_like(h: FuncInfo) -> bool:
+    """The helper contains a branch or a raise (it can reject something)."""
+    return any(isinstance(n, (ast.If, ast.Raise, ast.IfExp, ast.Assert)) for n in q.walk_body(h.node))
